@@ -46,6 +46,8 @@ ASSUMPTIONS = [
     'tables with 2 or 4 masses, and identical duplicate rows with nothing missing, are outside the quantifier: '
     'either refusal or a model that reproduces its nodes is accepted',
     'NaN states and one-level phases are not enumerated',
+    'evaluate leaving its AircraftState argument unchanged is checked on every call: a changed argument makes a later '
+    'evaluation of the same object answer for another state than the caller wrote (results then depend on history)',
     'phase membership of rows: the harness labels rows itself; cruise rows carry ROCD 0 or |ROCD| <= 9.99e-7',
 ]
 
@@ -259,6 +261,12 @@ def sublattices(tier, seed):
     cases.append(dict(t=None, q=dict(k='ptf-file', path='tests/data/verification/legacy/legacy_performance.PTF')))
     subs.append(dict(name='generated PTF files', axes=dict(flset=list(rb.PTF_FLSETS), blank=list(rb.PTF_BLANKS), fmt=list(rb.PTF_FORMATS),
                                                           masses=list(rb.PTF_MASSES), special=list(rb.PTF_SPECIALS)), cases=cases))  # fmt: skip
+    # one AircraftState object evaluated on two models / phases in sequence (A, B, A again)
+    mp_ = [[s_, ph] for s_ in ('s3', 's4', 'sp') for ph in rb.PHASES]
+    cases = [dict(t=None, q=dict(k='state-reuse', a=a, b=b, m=m, fl=fl))
+             for a in mp_ for b in mp_ for m in ('min', 'max', 60000.0) for fl in (100.0, 250.0)]  # fmt: skip
+    subs.append(dict(name='one state object reused across models and phases',
+                     axes=dict(first=mp_, second=mp_, mass=['min', 'max', 60000.0], flight_level=[100.0, 250.0]), cases=cases))
     # model files: the same path loaded again after its content changed (PerformanceModel.load)
     v1, v2, v3 = dict(t=['s3', 'lin']), dict(t=['s3', 'zig']), dict(t=['s4', 'lin'])
     mals = [dict(t=['s3', 'lin'], mal=m) for m in FILE_MALS]
@@ -364,16 +372,38 @@ def _model(t, fresh=False):
     return _S['models'][key]
 
 
-def _call(pm, ph, alt, mass, fields=(None, None)):
-    """One real evaluate call -> ('ok', (tas, rocd, ff)) | ('raise', exc)."""
+def _snapshot(state):
+    return [(k, type(v).__name__, repr(v)) for k, v in sorted(vars(state).items())]
+
+
+def _call(pm, ph, alt, mass, fields=(None, None), state=None):
+    """One real evaluate call -> ('ok', (tas, rocd, ff)) | ('raise', exc). `state`: evaluate this
+    existing AircraftState object instead of a new one. Every call checks that evaluate left its
+    state argument as it was (all fields, type and value); changes are collected in _S['mut']."""
     cur = _S.get('cur')
-    if cur is not None:  # which case made this process's first evaluation in each phase
-        _S.setdefault('hist', {'first': None, 'prev': None, 'phase': {}})['phase'].setdefault(ph, cur)
+    if cur is not None:  # which case made this process's first evaluation in each phase / on each grid
+        h = _hist()
+        h['phase'].setdefault(ph, (h['seq'], cur))
+        try:
+            pt = pm.performance_table
+            gk = (ph, tuple(pt.fl), tuple(pt.mass))
+        except Exception:  # noqa: BLE001
+            gk = None
+        if gk is not None:
+            h['grid'].setdefault(gk, (h['seq'], cur))
+            _S.setdefault('touched', set()).add(gk)
+    st = state if state is not None else _S['State'](alt, mass, fields[0], fields[1])
+    before = _snapshot(st)
     try:
-        p = pm.evaluate(_S['State'](alt, mass, fields[0], fields[1]), _S['rules'][ph])
+        p = pm.evaluate(st, _S['rules'][ph])
         return 'ok', (float(p.true_airspeed), float(p.rate_of_climb), float(p.fuel_flow))
     except Exception as e:  # noqa: BLE001 - classification is the oracle's job
         return 'raise', e
+    finally:
+        after = _snapshot(st)
+        if after != before:
+            diff = [f'{b[0]}: {b[2]} -> {a[2]}' for b, a in zip(before, after) if a != b]
+            _S.setdefault('mut', []).append(f'evaluate(phase {ph}) changed its AircraftState argument: {"; ".join(diff)}')
 
 
 def _call_all_fields(pm, ph, alt, mass, vio, what):
@@ -650,6 +680,46 @@ def _edge_sweep(t, q):
             vio.append(V('outside-state-not-rejected', f'phase {ph} with own range {fls[0]}..{fls[-1]} (whole table '
                                                        f'{rb.EDGE_SPAN}): FL {fl!r} returned {res}'))  # fmt: skip
     return f'edge-sweep:{q["side"]}', _dedupe(vio)
+
+
+def _state_reuse(q):
+    """One AircraftState object, evaluated on (model A, phase), (model B, phase), (model A, phase).
+    Every step must answer for the state as the caller wrote it: rejected iff outside that model's
+    own envelope, otherwise bounded by that model's surrounding nodes, 'min'/'max' = that model's own
+    extreme masses, and bit-identical to a fresh state object with the same field values."""
+    vio = []
+    ocs = []
+    fl, m = q['fl'], q['m']
+    alt = _alt(fl, 'a')
+    shared = _S['State'](alt, m, 111.0, 2.5)
+    for k, (sname, ph) in enumerate((q['a'], q['b'], q['a'])):
+        pm, ref = _model([sname, 'lin', 'gen', 'std'])
+        mnum = {'min': ref.mass_min, 'max': ref.mass_max}.get(m, m)
+        inside = ref.fls[ph][0] <= fl <= ref.fls[ph][-1] and (not ref.mass_dependent(ph) or ref.masses[ph][0] <= mnum <= ref.masses[ph][-1])
+        where = f'step {k + 1} of (A={q["a"]}, B={q["b"]}, A) with ONE state object (FL {fl}, mass {m!r}) on table {sname} phase {ph}'
+        kind, res = _call(pm, ph, None, None, state=shared)
+        fk, fres = _call(pm, ph, alt, m, (111.0, 2.5))  # a fresh object carrying what the caller wrote
+        if (kind, repr(res) if kind == 'ok' else type(res).__name__) != (fk, repr(fres) if fk == 'ok' else type(fres).__name__):
+            vio.append(V('reused-state-differs-from-fresh-state', f'{where}: reused object gives {res!r}, a fresh object with the same fields gives {fres!r}'))
+        if not inside:
+            if kind == 'ok':
+                vio.append(V('outside-state-not-rejected', f'{where}: returned {res}'))
+            ocs.append('rejected' if kind != 'ok' else 'not-rejected')
+            continue
+        if kind != 'ok':
+            vio.append(V('in-envelope-state-rejected', f'{where}: {type(res).__name__}: {str(res)[:200]}; envelope FL '
+                                                       f'{ref.fls[ph][0]}..{ref.fls[ph][-1]}, mass {ref.masses[ph][0]}..{ref.masses[ph][-1]}'))  # fmt: skip
+            ocs.append('in-envelope-rejected')
+            continue
+        tol = _tol(ref, ph, fl)
+        sur = ref.surrounding(ph, fl, mnum)
+        bad = [f'{name}={res[c]!r} not in [{min(x[c] for x in sur)!r}, {max(x[c] for x in sur)!r}]'
+               for c, name in enumerate(('tas', 'rocd', 'fuel_flow'))
+               if not (min(x[c] for x in sur) - tol[c] <= res[c] <= max(x[c] for x in sur) + tol[c])]  # fmt: skip
+        if bad:
+            vio.append(V('interior-not-bounded', f'{where} (mass stands for {mnum!r} here): ' + '; '.join(bad)))
+        ocs.append('bounded')
+    return 'state-reuse:' + '>'.join(ocs), _dedupe(vio)
 
 
 def _dedupe(vio, keep=3):
@@ -1019,6 +1089,8 @@ def _dispatch(case):
         return _sweep_shipped(case['t'], q)
     if k == 'edge-sweep':
         return _edge_sweep(case['t'], q)
+    if k == 'state-reuse':
+        return _state_reuse(q)
     if k == 'file-seq':
         return _file_seq(q)
     if k == 'ptf-seq':
@@ -1030,33 +1102,51 @@ def _plain(case):
     return {k: v for k, v in case.items() if k != 'warm'}
 
 
+def _hist():
+    return _S.setdefault('hist', {'first': None, 'prev': None, 'phase': {}, 'grid': {}, 'seq': 0})
+
+
 def _history(case):
     """Earlier cases of this worker that can have left state behind which this case then sees
     (models are built and lazily completed on first use, so first uses matter): the worker's first
-    case, the first case that touched this case's phase, and the case just before."""
-    h = _S.setdefault('hist', {'first': None, 'prev': None, 'phase': {}})
+    case, the first case that evaluated in this case's phase(s), the first case that evaluated a
+    table with the same (phase, flight levels, masses) as one evaluated now, and the case just
+    before - in the order in which they ran."""
+    h = _hist()
     ph = case['q'].get('ph')
-    # chronological: the first case, the phase first-uses (dict order = time order), the previous case
-    want = [h['first']] + ([h['phase'].get(ph)] if ph else list(h['phase'].values())) + [h['prev']]
-    warm = []
+    want = [h['first'], h['prev']] + ([h['phase'].get(ph)] if ph else list(h['phase'].values()))
+    want += [h['grid'].get(k) for k in _S.get('touched', ())]
     me = _plain(case)
-    for c in want:
-        if c is not None and c != me and c not in warm:
-            warm.append(c)
-    return warm
+    uniq = {}
+    for e in want:
+        if e is not None and e[1] != me:
+            uniq[e[0]] = e[1]
+    return [uniq[k] for k in sorted(uniq)]
 
 
 def _remember(case):
-    h = _S.setdefault('hist', {'first': None, 'prev': None, 'phase': {}})
-    me = _plain(case)
+    h = _hist()
+    me = (h['seq'], _plain(case))
     if h['first'] is None:
         h['first'] = me
     h['prev'] = me
+    h['seq'] += 1
+
+
+def _dispatch_checked(case):
+    """_dispatch plus the per-call clause 'evaluate does not modify the caller's state object'."""
+    _S['mut'] = []
+    oc, vio = _dispatch(case)
+    if _S['mut']:
+        vio = list(vio) + [V('state-argument-modified', f'{_S["mut"][0]} ({len(_S["mut"])} such call(s) in this case): the caller\'s '
+                             'state no longer says what it said, so a later evaluation of the same object answers for another state')]  # fmt: skip
+    return oc, vio
 
 
 def run_case(case):
     _S['cur'] = _plain(case)
-    oc, vio = _dispatch(_plain(case))
+    _S['touched'] = set()
+    oc, vio = _dispatch_checked(_plain(case))
     trivial = oc in ('continuity:edge-skipped',)
     r = {'outcome': oc, 'nontrivial': not trivial, 'violations': vio}
     if vio:
@@ -1073,7 +1163,7 @@ def replay(case):
     case. A violation that does not depend on history reproduces regardless."""
     for c in case.get('warm') or []:
         _dispatch(c)
-    oc, vio = _dispatch(_plain(case))
+    oc, vio = _dispatch_checked(_plain(case))
     if case.get('warm'):
         for v in vio:
             v['detail'] = f'[replayed after {len(case["warm"])} earlier case(s) of the same worker] ' + v['detail']
